@@ -343,6 +343,14 @@ pub unsafe extern "C" fn setgid(gid: libc::gid_t) -> c_int {
 #[no_mangle]
 pub unsafe extern "C" fn setpgid(pid: pid_t, pgid: pid_t) -> c_int {
     on_syscall();
+    if !IN_CHILD && NKIDS >= 1 && pid == KIDS[NKIDS - 1].pid && pgid == pid {
+        // the parent moves its freshly forked child into its own group: POSIX makes this
+        // fail with EACCES once the child has called exec -- and the child may already have
+        if KID_LAUNCH_ERRNO[NKIDS - 1] == 0 && kani::any() {
+            return fail(libc::EACCES);
+        }
+        return 0;
+    }
     child_step_called(Step::Setpgid);
     if child_step_fails(Step::Setpgid) {
         return -1;
